@@ -207,6 +207,54 @@ func staleCandidates(ds *dataset, expr string, t int64) []int {
 	return out
 }
 
+// staleInSpan: some series has a staleness marker inside the union of the windows of a range-vector selector of the
+// expression over the whole query [start, end] (instant query: start = end)
+func staleInSpan(ds *dataset, expr string, start, end int64) bool {
+	e, err := parser.ParseExpr(expr)
+	if err != nil {
+		return false
+	}
+	found := false
+	parser.Inspect(e, func(n parser.Node, _ []parser.Node) error {
+		ms, ok := n.(*parser.MatrixSelector)
+		if !ok {
+			return nil
+		}
+		vs, ok := ms.VectorSelector.(*parser.VectorSelector)
+		if !ok {
+			return nil
+		}
+		lo := start - vs.OriginalOffset.Milliseconds() - ms.Range.Milliseconds()
+		hi := end - vs.OriginalOffset.Milliseconds()
+		for _, s := range seriesOfNamed(ds, vs) {
+			for _, p := range s.Samples {
+				if p.T >= lo && p.T <= hi && isStale(p.V) {
+					found = true
+				}
+			}
+		}
+		return nil
+	})
+	return found
+}
+
+// seriesOfNamed: the data set's series selected by the selector's metric-name matcher
+func seriesOfNamed(ds *dataset, vs *parser.VectorSelector) []*series {
+	var out []*series
+	for i := range ds.Series {
+		ok := true
+		for _, m := range vs.LabelMatchers {
+			if m.Name == "__name__" && !m.Matches(ds.Series[i].Labels["__name__"]) {
+				ok = false
+			}
+		}
+		if ok {
+			out = append(out, &ds.Series[i])
+		}
+	}
+	return out
+}
+
 // dropStaleEnded returns the number of candidate series (see staleCandidates); kept for the step-wise explanation.
 func dropStaleEnded(ds *dataset, expr string, t int64) (dataset, int) {
 	return *ds, len(staleCandidates(ds, expr, t))
@@ -753,6 +801,13 @@ func explainWith(ds *dataset, e *exprCase, mode string, start, lastStep, step in
 				return true, ex, nregex
 			}
 		}
+	}
+	if hasMatrixSelector(e.Expr) && cmpResults(up, sv) != "" && staleInSpan(ds, e.Expr, start, lastStep) {
+		// whole class: a staleness marker inside the windows of the query (see findings.json: a record that holds nothing
+		// but markers becomes empty; in range queries the reducers then also emit windows from time 0 on - millions of
+		// bogus points - or lose points)
+		ex.Rules = addRule(ex.Rules, fStaleEnd)
+		return true, ex, nregex
 	}
 	if mode == "range" && hasMatrixSelector(e.Expr) && cmpResults(up, sv) != "" && trailingLoss(up, sv) {
 		ex.Rules = addRule(ex.Rules, fStepGtRange)
